@@ -217,10 +217,13 @@ func (s *store) state() string {
 type c21Engine struct{}
 
 func (e *c21Engine) Rule() string {
-	return "C21: SetHardState/Append(conflicting overwrites)/ApplySnapshot/MaybeCompact sequences on the real WALStorage, interleaved with foreign WAL records, wal.Sync and rotations, with crash images (kernel view of the directory) and clean restarts; non-trivial = a crash or restart happens after at least one raft record was persisted and the state is observed afterwards"
+	return "C21 (85% storage level, 15% peer level: a live peer.Peer over a failing WAL with a recording transport, vote grants / append acks checked against the recovered state at every crash): SetHardState/Append(conflicting overwrites)/ApplySnapshot/MaybeCompact sequences on the real WALStorage, interleaved with foreign WAL records, wal.Sync and rotations, with crash images (kernel view of the directory) and clean restarts; non-trivial = a crash or restart happens after at least one raft record was persisted and the state is observed afterwards"
 }
 
 func (e *c21Engine) Exec(ops []string) []string {
+	if len(ops) > 0 && strings.HasPrefix(ops[0], "p.") {
+		return execPeer(ops)
+	}
 	out := make([]string, len(ops))
 	root, err := os.MkdirTemp(tmpBase(), "raftwal-")
 	if err != nil {
@@ -309,6 +312,9 @@ func genItems(r *hlib.Rand, term uint64, n int) string {
 // Gen keeps a shadow of what a raft node would know (term, last index, commit, snapshot)
 // so that most calls are ones a raft node could issue; a few percent are not.
 func (e *c21Engine) Gen(r *hlib.Rand, tier string) []string {
+	if r.Chance(15) {
+		return genPeer(r)
+	}
 	n := 6 + r.Intn(22)
 	var ops []string
 	term, vote, commit, last, snapIdx, trunc := uint64(1), uint64(0), uint64(0), uint64(0), uint64(0), uint64(0)
@@ -412,6 +418,18 @@ func (e *c21Engine) Gen(r *hlib.Rand, tier string) []string {
 }
 
 func (e *c21Engine) Nontrivial(ops, impl, model, spec []string) bool {
+	if len(ops) > 0 && strings.HasPrefix(ops[0], "p.") {
+		acted := false
+		for i, op := range ops {
+			if (strings.HasPrefix(op, "p.vote ") || strings.HasPrefix(op, "p.app ")) && impl[i] == "ok" {
+				acted = true
+			}
+			if acted && strings.HasPrefix(impl[i], "crash=ok") {
+				return true
+			}
+		}
+		return false
+	}
 	persisted := false
 	for i, op := range ops {
 		k := strings.Fields(op)[0]
